@@ -33,7 +33,7 @@ struct World {
     std::map<std::string, std::string> tryres;
     std::set<std::string> incs;
     // multi-round mode (spec/Mutex/MutexRounds.tla): header fields "rounds", "foreign", "await", "reuse"
-    bool multi = false, reuse = false;
+    bool multi = false, reuse = false, nowarm = false;
     std::map<std::string, int> rounds, bodies;
     std::set<std::string> foreign;
     std::map<std::string, cocls::mutex::ownership> slot;   // ownership objects handed to helper threads
@@ -254,6 +254,7 @@ static void run_one(const Scenario &sc, Reporter &rep, Explore *ex) {
     if (ex) w.sched.no_yield = [](const cocls_verif::event &e) { return e.op == op_t::load || e.op == op_t::conv; };
     if (w.sched.record_motable) cocls_verif::motable::get().label(&(w.mx.*MProbe::req_mp()), sizeof(void *), "mutex.requests");
     w.multi = sc.hdr.has("rounds");
+    w.nowarm = sc.hdr.at("nowarm").as_bool(false);
     if (w.multi) {
         w.reuse = sc.hdr.at("reuse").as_bool(false);
         for (auto &kv : sc.hdr.at("rounds").m) w.rounds[kv.first] = (int) kv.second.as_int(1);
@@ -270,7 +271,10 @@ static void run_one(const Scenario &sc, Reporter &rep, Explore *ex) {
             World &w = *pw;
             std::string myname = p;
             tl_thread = &myname;
-            (void) cocls::coro_queue::queue_impl::instance._queue.size();
+            // the thread-local ready queue is constructed on first use (libstdc++'s deque allocates in its constructor): that
+            // one-time cost is kept out of the accounting, EXCEPT in mixes without any coroutine party ("nowarm"), where
+            // nothing may ever touch the ready queue and the count must be 0 on a fresh thread
+            if (!w.nowarm) (void) cocls::coro_queue::queue_impl::instance._queue.size();
             long n0 = alloc_stats::news;
             if (kind == "co") {
                 auto c = multi ? co_party_rounds(w, p, rel, rounds, foreign, reuse) : co_party(w, p, rel);      // the coroutine frame: the user's allocation
